@@ -118,6 +118,35 @@ def run(run: core.Run, tier: str):
       add("linear", cfg, q, xs, dict(qf=core.rj(qf)),
           label="quantized_linear(%d,%d,%d,keep_negative=%d,alpha=%s,qnoise_factor=%s)" % (bits, integer, sym, kn, alpha, qf),
           surrogate=("linear_clip", (F32(lo), F32(hi), qf)), key=dict(cls="quantized_linear"))
+  # ---- quantized_linear with a data-dependent scale: the scale must be a constant for the gradient.
+  # 2-D input, per-column scale; column maxima are 7*2^k so that scale = max/7 = 2^k is exact; the other
+  # entries have non-zero rounding residues (a scale that leaks into the gradient contributes
+  # (round(x/s) - x/s) * ds/dx, so residues are what exposes it).  Expected gradient: identity everywhere.
+  for alpha in ("auto", "auto_po2"):
+    q = Q.quantized_linear(4, 0, 1, keep_negative=True, alpha=alpha)
+    ks = [0, -2, 3]
+    cols = []
+    for k in ks:
+      codes = np.array([7, -7, 2.5, -1.25, 0.5, 5.25, -6.75, 2.25], dtype=np.float32)
+      rng.shuffle(codes)
+      cols.append(codes * np.float32(2.0 ** k))
+    x2 = np.stack(cols, axis=1).astype(np.float32)
+    xt = tf.constant(x2)
+    with tf.GradientTape() as tape:
+      tape.watch(xt)
+      y = q(xt)
+    g = np.asarray(tape.gradient(y, xt), dtype=np.float32)
+    yv = np.asarray(y, dtype=np.float32)
+    for idx in np.ndindex(x2.shape):
+      run.case(("linear_auto", alpha, idx, float(x2[idx])))
+      run.compared += 1
+      if float(g[idx]) != 1.0:
+        run.violate("grad_ste", dict(cls="quantized_linear", alpha=alpha, what="auto-scale leak"),
+                    {"config": "quantized_linear(4,0,1,alpha=%s) on a 2-D tensor with exact column scales" % alpha,
+                     "x": float(x2[idx]), "y": float(yv[idx]), "grad": float(g[idx]), "expected_grad": 1.0},
+                    mirrored=False)
+        break
+    run.count("op_linear_auto", x2.size)
   # ---- quantized_relu
   for bits, integer, sl, iqc, upper in [(4, 1, None, True, None), (4, 1, 2, True, None), (4, 1, None, False, 1.5),
                                         (3, 0, 1, False, None), (4, 2, 3, False, 3.0), (6, 2, None, True, None)]:
